@@ -8,7 +8,7 @@ import (
 )
 
 var segPool = []string{"a", "b", "c", "d"}
-var specialSegs = []string{".git", ".terraform", "modules", "zzz", "f.txt", "g.txt", "a+b", "ab", "aab", " sp", "-d", ".hid", "ü日", "x(y)", "p|q", "..data", "..x", "a-v2", "a.tf"}
+var specialSegs = []string{".git", ".terraform", "modules", "zzz", "f.txt", "g.txt", "a+b", "ab", "aab", " sp", "-d", ".hid", "ü日", "x(y)", "p|q", "..data", "..x", "a-v2", "a.tf", "a\\b", "bs\\", "caf@E9@", "m@FC@ller.tf", "tab\tx"}
 var fModes = []int{0o644, 0o600, 0o444, 0o400, 0o755, 0o777, 0o640, 0o000, 0o200}
 var dModes = []int{0o755, 0o700, 0o555, 0o500, 0o777, 0o750}
 var fracs = []int64{0, 400000000, 500000000, 600000000, 499999999, 999999999}
@@ -107,6 +107,32 @@ func pickSeg(r *simkit.RNG, k *knobs) string {
 		return simkit.Pick(r, specialSegs)
 	}
 	return simkit.Pick(r, segPool)
+}
+
+func dirOf(p string) string {
+	if i := strings.LastIndex(p, "/"); i >= 0 {
+		return p[:i]
+	}
+	return ""
+}
+
+// pathClean cleans a relative slash path lexically ("" for the tree root).
+func pathClean(p string) string {
+	var st []string
+	for _, s := range strings.Split(p, "/") {
+		switch s {
+		case "", ".":
+		case "..":
+			if len(st) == 0 || st[len(st)-1] == ".." {
+				st = append(st, "..")
+			} else {
+				st = st[:len(st)-1]
+			}
+		default:
+			st = append(st, s)
+		}
+	}
+	return strings.Join(st, "/")
 }
 
 func times(r *simkit.RNG, n *TNode) {
@@ -233,7 +259,7 @@ func genTree(r *simkit.RNG, sc *Scenario, k *knobs) {
 			up := strings.Repeat("../", depth)
 			var opts []string
 			if k.inLinks {
-				opts = append(opts, "sib", "file", "dir", "dangle", "updown", "chain")
+				opts = append(opts, "sib", "file", "dir", "dangle", "updown", "chain", "via-link")
 				if k.viaRootName {
 					opts = append(opts, "via-root-name")
 				}
@@ -242,7 +268,7 @@ func genTree(r *simkit.RNG, sc *Scenario, k *knobs) {
 				opts = append(opts, "abs-in")
 			}
 			if k.outLinks {
-				opts = append(opts, "out-file", "out-dir", "out-dangle", "sibling-prefix", "out-abs", "out-chain", "hist-ext", "parent")
+				opts = append(opts, "out-file", "out-dir", "out-dangle", "sibling-prefix", "case-sibling", "out-abs", "out-chain", "hist-ext", "parent")
 			}
 			if k.hostileLinks {
 				opts = append(opts, "cycle", "self", "loopdir", "fifo", "fifodir", "dircycle")
@@ -293,6 +319,27 @@ func genTree(r *simkit.RNG, sc *Scenario, k *knobs) {
 				nd.Target = up + "../ext/missing"
 			case "sibling-prefix":
 				nd.Target = up + "../src-evil/secret"
+			case "case-sibling":
+				// a sibling of the source directory whose name differs from it in letter case only
+				nd.Target = up + "../SRC/secret"
+			case "via-link":
+				// the target path passes through an earlier in-tree link to a directory
+				var cands []string
+				for _, t := range sc.Tree {
+					if t.Root != "src" || t.Kind != "link" || strings.HasPrefix(t.Target, "/") {
+						continue
+					}
+					res := pathClean(join(dirOf(t.Path), t.Target))
+					for _, f := range files {
+						if res != "" && !strings.HasPrefix(res, "..") && strings.HasPrefix(f, res+"/") {
+							cands = append(cands, t.Path+"/"+strings.TrimPrefix(f, res+"/"))
+						}
+					}
+				}
+				if len(cands) == 0 {
+					continue
+				}
+				nd.Target = up + simkit.Pick(r, cands)
 			case "out-abs":
 				nd.Target = ExtRoot + "/" + simkit.Pick(r, append(append([]string{}, extFiles...), extDirs...))
 			case "out-chain":
@@ -344,7 +391,7 @@ func genRules(r *simkit.RNG, sc *Scenario, k *knobs) string {
 			continue
 		}
 		for _, s := range strings.Split(n.Path, "/") {
-			if !seen[s] && s != "" {
+			if !seen[s] && s != "" && !strings.ContainsAny(s, "\\@\t") {
 				seen[s] = true
 				names = append(names, s)
 			}
